@@ -73,6 +73,8 @@ func verifMkWiring(n, m int) *wiring {
 	return wr
 }
 
+var verifLag bool
+
 func verifC03c(n, m, rounds int) {
 	ctx := context.Background()
 	wr := verifMkWiring(n, m)
@@ -86,11 +88,19 @@ func verifC03c(n, m, rounds int) {
 		go func() {
 			for r := 0; r < rounds; r++ {
 				verifAdd(&arrived, 1)
-				act := <-gw.NextAction(ctx, fl)
+				resp := gw.NextAction(ctx, fl)
+				if verifLag {
+					verifYield() // the token may be descheduled between asking and waiting for the answer
+				}
+				act := <-resp
 				verifAssert(verifGet(&arrived) >= int64(n*(r+1)), "nothing is released before a token has arrived on every incoming flow")
 				verifAdd(&answered[r], 1)
 				switch a := act.(type) {
 				case flowAction:
+					verifAssert(len(a.unconditionalFlows) == len(a.sequenceFlows), "every flow handed out by a parallel gateway is unconditional")
+					for _, idx := range a.unconditionalFlows {
+						verifAssert(idx >= 0 && idx < len(a.sequenceFlows), "the unconditional-flow indices refer to the handed-out flows")
+					}
 					for _, sf := range a.sequenceFlows {
 						for j := 0; j < m; j++ {
 							if sf == &wr.outgoing[j] {
@@ -116,20 +126,23 @@ func verifC03c(n, m, rounds int) {
 	verifAssert(gw.reportedIncomingFlows == 0 && len(gw.awaitingActions) == 0, "nothing is carried into the next activation")
 }
 
-func VerifC03c_1x1_R2() { verifC03c(1, 1, 2) }
-func VerifC03c_2x1_R2() { verifC03c(2, 1, 2) }
-func VerifC03c_1x2_R2() { verifC03c(1, 2, 2) }
-func VerifC03c_2x2_R2() { verifC03c(2, 2, 2) }
-func VerifC03c_3x2_R2() { verifC03c(3, 2, 2) }
-func VerifC03c_2x3_R2() { verifC03c(2, 3, 2) }
-func VerifC03c_3x3_R2() { verifC03c(3, 3, 2) }
-func VerifC03c_3x1_R2() { verifC03c(3, 1, 2) }
-func VerifC03c_1x3_R2() { verifC03c(1, 3, 2) }
-func VerifC03c_4x4_R1() { verifC03c(4, 4, 1) }
-func VerifC03c_4x2_R2() { verifC03c(4, 2, 2) }
-func VerifC03c_2x4_R2() { verifC03c(2, 4, 2) }
-func VerifC03c_3x3_R3() { verifC03c(3, 3, 3) }
-func VerifC03c_4x4_R3() { verifC03c(4, 4, 3) }
+func VerifC03c_2x1_R1_Lag() { verifLag = true; verifC03c(2, 1, 1) }
+func VerifC03c_2x2_R1_Lag() { verifLag = true; verifC03c(2, 2, 1) }
+func VerifC03c_3x2_R1_Lag() { verifLag = true; verifC03c(3, 2, 1) }
+func VerifC03c_1x1_R2()     { verifC03c(1, 1, 2) }
+func VerifC03c_2x1_R2()     { verifC03c(2, 1, 2) }
+func VerifC03c_1x2_R2()     { verifC03c(1, 2, 2) }
+func VerifC03c_2x2_R2()     { verifC03c(2, 2, 2) }
+func VerifC03c_3x2_R2()     { verifC03c(3, 2, 2) }
+func VerifC03c_2x3_R2()     { verifC03c(2, 3, 2) }
+func VerifC03c_3x3_R2()     { verifC03c(3, 3, 2) }
+func VerifC03c_3x1_R2()     { verifC03c(3, 1, 2) }
+func VerifC03c_1x3_R2()     { verifC03c(1, 3, 2) }
+func VerifC03c_4x4_R1()     { verifC03c(4, 4, 1) }
+func VerifC03c_4x2_R2()     { verifC03c(4, 2, 2) }
+func VerifC03c_2x4_R2()     { verifC03c(2, 4, 2) }
+func VerifC03c_3x3_R3()     { verifC03c(3, 3, 3) }
+func VerifC03c_4x4_R3()     { verifC03c(4, 4, 3) }
 
 // C03.b: one step of the run loop's counter logic from an arbitrary valid state (inductive):
 // reported in 0..N-1 with that many parked tokens; after one more arrival the gateway releases iff
